@@ -136,6 +136,7 @@ def run(F, R):
     b5b_walk_start(F, R)
     b6_restore_on_every_exit(F, R)
     b7_header_types(F, R)
+    b3c_clone_preserves_addressing(F, R)
 
 
 def b1_b2(F, R, b):
@@ -368,6 +369,33 @@ def header_type_name(F, code):
             if len(hit) == 1 and hit[0].ret and hit[0].ret[0] == 'agg':
                 return hit[0].ret[1].rsplit('::', 1)[1]
     return None
+
+
+def b3c_clone_preserves_addressing(F, R):
+    """The configuration access handed to the bus iterator is a clone of the root's: every field of the value `unsafe_clone` builds
+    derives from the same field of the original (window pointer, base address, addressing mode), so the clone addresses
+    configuration space exactly as the root does (CAM vs ECAM)."""
+    n = 0
+    for b in sorted(F.bodies.values(), key=lambda x: x['id']):
+        if b.get('impl_trait') != CFGACC or b['name'] != 'unsafe_clone' or not F.handwritten(b):
+            continue
+        sg = supergraph(F, b['id'], tag='flat', max_depth=0)
+        S = sg.sym
+        for nd in sg.nodes:
+            if nd.kind != 'assign' or nd.d['rv']['rv'] != 'agg' or nd.d['rv'].get('adt') != b.get('impl_adt'):
+                continue
+            rv = nd.d['rv']
+            n += 1
+            bad = None
+            for f_, o_ in zip(rv['fields'], rv['ops']):
+                v = S.operand(nd.id, o_)
+                same = any(x[0] == 'loc' and x[2] and x[2][-1][0] == 'f' and x[2][-1][1] == f_ and any(y == ('param', 1) for y in subterms(x)) for x in deep_subterms(S, v)) or \
+                    any(x[0] in ('load', 'load0') and x[1][2] and x[1][2][-1][0] == 'f' and x[1][2][-1][1] == f_ for x in deep_subterms(S, v))
+                if not same:
+                    bad = 'field `%s` of the clone is %s, not derived from the original\'s `%s`' % (f_, fmt(v)[:60], f_)
+            R.check(bad is None, 'B3', '%s:clone-preserves-addressing' % b['id'], site(sg, nd), 'every field of the clone derives from the same field of the original',
+                    'configuration access clone: %s - accesses through the clone (bus enumeration) use another window / addressing mode than the root' % bad)
+    R.count('cam_clones', n)
 
 
 HEADER_KINDS = (('cardbus', 2), ('bridge', 1), ('standard', 0), ('normal', 0), ('general', 0))
